@@ -6,6 +6,7 @@ import (
 	"math/rand"
 	"sort"
 	"strings"
+	"time"
 
 	"github.com/awslabs/ar-go-tools/analysis/config"
 	"github.com/awslabs/ar-go-tools/analysis/dataflow"
@@ -28,6 +29,23 @@ func showConds(d *fdump, ci dataflow.ConditionInfo) string {
 		ps = append(ps, s+fmt.Sprint(d.id(c.Value)))
 	}
 	return strings.Join(ps, ",")
+}
+
+// pathSearchHung is set when a call of the real path search exceeded its time budget.
+var pathSearchHung bool
+
+// realPathGuarded = realPath with a time budget (the modelled search ends within fuelBound pops:
+// findPath_terminates; a rewrite that loses that bound can take exponential time).
+func realPathGuarded(d *fdump, b, e *ssa.BasicBlock) (string, bool) {
+	var out string
+	done := make(chan struct{})
+	go func() { defer close(done); out = realPath(d, b, e) }()
+	select {
+	case <-done:
+		return out, true
+	case <-time.After(20 * time.Second):
+		return "", false
+	}
 }
 
 // realPath runs the real search and formats its answer like the oracle does.
@@ -145,7 +163,16 @@ func addPathQueries(bt *batch, rep *lib.Report, r *rand.Rand, d *fdump, hdr, src
 	}
 	for _, p := range pairs {
 		b, e := fn.Blocks[p.b], fn.Blocks[p.e]
-		want := realPath(d, b, e)
+		if pathSearchHung {
+			return
+		}
+		want, finished := realPathGuarded(d, b, e)
+		if !finished {
+			pathSearchHung = true
+			rep.Fail("path-timeout:"+cfg+fmt.Sprintf("|%d>%d", p.b, p.e), fmt.Sprintf("dataflow.FindPathBetweenBlocks did not return within 20 s on a %d-block function (the modelled search ends within fuelBound pops: theorem findPath_terminates no longer describes the code)", n),
+				[]byte(fmt.Sprintf("function %s\n%s\ncfg: %s\nquery: path %d %d\noracle records:\n%s", fn.String(), src, cfg, p.b, p.e, hdr)), true)
+			return
+		}
 		key := ""
 		if strings.Contains(want, " C ") && !strings.HasSuffix(want, " C -") {
 			key = cfg + "|" + want
@@ -166,7 +193,9 @@ func addPathQueries(bt *batch, rep *lib.Report, r *rand.Rand, d *fdump, hdr, src
 			rep.Sample(map[string]any{"function": fn.String(), "cfg": cfg, "query": fmt.Sprintf("path %d %d", p.b, p.e), "real_and_model_answer": want})
 		}
 		bt.ask(&query{text: fmt.Sprintf("path %d %d", p.b, p.e), want: want, hdr: hdr,
-			ctx: fmt.Sprintf("function %s\n%s\ncfg: %s\nproperty-level check of the real answer: %q\n", fn.String(), src, cfg, checkRealPath(b, e))})
+			ctxFn: func() string {
+				return fmt.Sprintf("function %s\n%s\ncfg: %s\nproperty-level check of the real answer: %q\n", fn.String(), src, cfg, checkRealPath(b, e))
+			}})
 	}
 	rep.Count(fmt.Sprintf("fn-blocks<=%d", bucket(n)))
 }
@@ -201,7 +230,7 @@ func callArgs(fn *ssa.Function) []ssa.Value {
 
 // addValueQueries: isValidatorCondition on every If condition x polarity; IsPredicateTo on
 // condition x call argument; ValuesWithSameData on argument pairs.
-func addValueQueries(bt *batch, rep *lib.Report, r *rand.Rand, d *fdump, ts *config.TaintSpec, hdr, src string) {
+func addValueQueries(bt *batch, rep *lib.Report, r *rand.Rand, d *fdump, ts *config.TaintSpec, prob int, hdr, src string) {
 	fn := d.fn
 	var cids []int
 	for cid := range d.conds {
@@ -223,12 +252,15 @@ func addValueQueries(bt *batch, rep *lib.Report, r *rand.Rand, d *fdump, ts *con
 		}
 		for _, pol := range []bool{true, false} {
 			real := taint.VerifC02IsValidatorCondition(ts, v, pol)
-			rep.Case("vc|" + shapeOf(e) + "|" + b01(pol))
+			rep.Case(fmt.Sprintf("vc|p%d|", prob) + shapeOf(e) + "|" + b01(pol))
 			rep.Count("vc:" + b01(real))
 			bt.ask(&query{text: fmt.Sprintf("vc %s %s", b01(pol), e), want: "vc " + b01(real), hdr: hdr,
-				ctx: fmt.Sprintf("function %s\n%s\ncondition value: %s  polarity=%v  real isValidatorCondition=%v\n", fn.String(), src, v.String(), pol, real)})
+				ctx: fmt.Sprintf("function %s\n%s\ncondition value: %s  polarity=%v  taint problem %d  real isValidatorCondition=%v\n", fn.String(), src, v.String(), pol, prob, real)})
 		}
 		for _, a := range args {
+			if prob != 0 {
+				break // IsPredicateTo does not depend on the taint problem
+			}
 			budget := 400
 			ae := d.vexpr(a, &budget)
 			if budget < 0 {
@@ -242,6 +274,9 @@ func addValueQueries(bt *batch, rep *lib.Report, r *rand.Rand, d *fdump, ts *con
 		}
 	}
 	// same data on pairs of argument values
+	if prob != 0 {
+		return
+	}
 	np := 0
 	for _, a := range args {
 		for _, b := range args {
